@@ -39,12 +39,12 @@ NONTRIVIAL_RULE = {
 
 ASSUMPTIONS = [
     "generated histories respect the asserted preconditions of the library (DESIGN.md section 3): calls only on active machines, ids < N, no no-arg succeed()/fail() from the root head, no veto of a redirected request during activation (counted as excluded_activation_veto)",
-    "configuration space sampled by a fixed zoo of 15 machine types (N 1..33, head/headless, automatic/manual, 8 payload types, L in {1,2,3,4,5,7,255}, capacities 1..254, 4 context kinds, 0..3 injections)",
+    "configuration space sampled by a fixed zoo of 16 machine types (N 1..33, head/headless, automatic/manual, 8 payload types, L in {1,2,3,4,5,7,255}, capacities 1..254, 4 context kinds, 0..3 injections)",
     "search never establishes absence; counts below are what this run generated and executed",
 ]
 
 # cfgs with alignment >= 16 payloads (6, 9), injections (1,3,5,6,8,12), payload (all but 0,4,10,11)
-ALL_CFGS = list(range(15))
+ALL_CFGS = list(range(16))
 ZOO = {
     1: dict(profiles=["general", "guards", "serial"], quick=720000, thorough=8640000),
     2: dict(profiles=["general", "guards"], quick=720000, thorough=8640000),
@@ -219,6 +219,9 @@ def zoo_check(n, tier, seed):
             return 2
     if not R.violations and n == 12:
         if vfextra.c12_extra(R, tier, seed) == 2:
+            return 2
+    if not R.violations and n == 18:
+        if vfextra.c18_extra(R, tier, seed) == 2:
             return 2
     return R.finish("cases = (zoo member, memory fill, scenario, operation list with per-callback action lists) generated by rapidcheck (structured generators, profile-weighted) "
                     "and, in the thorough tier, by libFuzzer over the byte encoding; distinct = distinct encoded case (per worker, summed); non-trivial = " + NONTRIVIAL_RULE[n])
